@@ -772,7 +772,7 @@ func (cs *ContractSet) parseContractLines(file, pkgPath string, lines []string, 
 			if j < 0 {
 				return fmt.Errorf("%s:%d: lemma <PROP> <name> [dispatch ...]: <formula>", file, s.line)
 			}
-			hdr := strings.Fields(rest[:j])
+			hdr := strings.Fields(strings.ReplaceAll(rest[:j], ",", " "))
 			if len(hdr) < 2 {
 				return fmt.Errorf("%s:%d: lemma needs a property id and a name", file, s.line)
 			}
